@@ -326,6 +326,39 @@ fn many_columns_probe<T: Sc>(rep: &mut Report) {
                 rep.violation("C07", json!({"flavour": flav, "what": "coefficients / residuals / Jacobian absent although the model evaluates"}));
                 continue;
             };
+            crate::report::hash_obs(rep, &om.c, &om.r, &om.j);
+            // C11: the other flavour of the same problem exposes the same values
+            if let Ok(mut other) = build_problem(FourierModel::<T>::new(n, h, 1.0), true, !par, &y, w.as_deref(), None) {
+                other.set_params(&[T::of64(wv)]);
+                let oo = observe(other.as_ref());
+                let dv = obs_close(&om, &oo);
+                rep.check("C11", dv <= T::tol(), dv, || json!({"flavour": flav, "dev": dv, "what": "sequential and parallel problem differ (many right hand sides / many samples)"}));
+            }
+            // C02: the residuals are W(Y - Phi C) for the reported coefficients, column by column
+            {
+                let pw = model0.phi64(T::of64(wv).to64());
+                let wt = |i: usize| w.as_ref().map(|w| w[i].to64()).unwrap_or(1.0);
+                let mut worst_r = 0.0f64;
+                let mut worst_q = 0usize;
+                for q in 0..s {
+                    let scale = y.column(q).iter().fold(0.0f64, |mx, v| mx.max(v.to64().abs())).max(1e-300);
+                    for i in 0..n {
+                        let mut fit = 0.0f64;
+                        for j in 0..m {
+                            fit += pw[(i, j)] * (cm[(j, q)].to64() / scale);
+                        }
+                        let e = wt(i) * (y[(i, q)].to64() / scale - fit);
+                        let d = (rm[q * n + i].to64() / scale - e).abs();
+                        if !(d <= worst_r) {
+                            worst_r = if d.is_nan() { f64::INFINITY } else { d };
+                            worst_q = q;
+                        }
+                    }
+                }
+                rep.check("C02", worst_r <= T::tol(), worst_r, || {
+                    json!({"flavour": flav, "col": worst_q, "dev": worst_r, "what": "residual block differs from W(Y - Phi C) recomputed from the reported coefficients of that column"})
+                });
+            }
             // C01 certificate per column: the residual block is orthogonal to the weighted basis
             {
                 let pw = model0.phi64(T::of64(wv).to64());
@@ -1596,7 +1629,7 @@ fn many_parameters_probe<T: Sc>(rep: &mut Report) {
     if T::NAME != "f64" {
         return;
     }
-    let pools: Vec<rayon::ThreadPool> = [2usize, 3].iter().map(|&t| rayon::ThreadPoolBuilder::new().num_threads(t).build().unwrap()).collect();
+    let pools: Vec<rayon::ThreadPool> = [2usize, 3, 5, 16].iter().map(|&t| rayon::ThreadPoolBuilder::new().num_threads(t).build().unwrap()).collect();
     for (p, n, weighted, s) in [(8usize, 12usize, false, 1usize), (8, 12, true, 2), (10, 15, true, 1), (8, 40, true, 1), (40, 160, true, 1), (70, 300, false, 2)] {
         let a0: Vec<f64> = (0..p).map(|k| 0.5 + 0.1 * k as f64).collect();
         let model0 = RationalModel::<T>::new(n, &a0);
@@ -1668,6 +1701,8 @@ fn many_parameters_probe<T: Sc>(rep: &mut Report) {
             });
             let dv = obs_close(&os, &op);
             rep.check("C11", dv <= 1e-9, dv, || det("parallel problem (pool smaller than P) differs from the sequential problem", dv));
+            // (under a poisoning allocator: every element handed out is a computed value - C10)
+            crate::report::hash_obs(rep, &op.c, &op.r, &op.j);
         }
         let conv = par.into_seq();
         let oc = observe(conv.as_ref());
